@@ -138,6 +138,34 @@ macro_rules! site_table {
 }
 site_table!(0, 1, 2, 3, 4, 5, 6, 7, 8, 9, 10, 11, 12, 13, 14, 15, 16, 17, 18, 19, 20, 21, 22, 23);
 
+// hand-written counted pairs (what fake! expands to, written out by the user): a counting replacement function and a
+// CallCountVerifier::WithCount on the same static counter, handed to will_execute through the UNCHECKED builder
+pub static PAIR_COUNTERS: [AtomicUsize; NSITES] = [const { AtomicUsize::new(0) }; NSITES];
+#[inline(never)]
+fn pair_fake<const K: usize>(x: u32) -> bool {
+    if x != BAD_ARG {
+        let prev = PAIR_COUNTERS[K].fetch_add(1, SeqCst);
+        if prev >= site_n(K) {
+            panic!("Fake function defined at harness pair {} called more times than expected", K);
+        }
+        site_hit(K)
+    } else {
+        panic!("Fake function defined at harness pair {} called with unexpected arguments", K);
+    }
+}
+macro_rules! pair_table {
+    ($($k:expr),*) => {
+        pub fn counted_pair(k: usize) -> (FuncPtr, CallCountVerifier) {
+            let f: fn(u32) -> bool = match k {
+                $( $k => pair_fake::<$k>, )*
+                _ => panic!("harness: no such pair"),
+            };
+            (unsafe { FuncPtr::new(f as *const (), "") }, CallCountVerifier::WithCount { counter: &PAIR_COUNTERS[k], expected: site_n(k) })
+        }
+    };
+}
+pair_table!(0, 1, 2, 3, 4, 5, 6, 7, 8, 9, 10, 11, 12, 13, 14, 15, 16, 17, 18, 19, 20, 21, 22, 23);
+
 pub struct RustPool;
 
 /// pool "rustpg": the same signatures, fakes and sites, but every target is a machine-code stub on a page of
@@ -299,6 +327,11 @@ impl Pool for RustPool {
                 SITE_N[s.site - 1].store(s.n as usize, SeqCst);
                 SITE_FAKE[s.site - 1].store(k as u32, SeqCst);
                 inj.when_called(injectorpp::func!(t, fn(u32) -> bool)).will_execute(counted_site(s.site - 1))
+            }
+            "countedpair" => {
+                SITE_N[s.site - 1].store(s.n as usize, SeqCst);
+                SITE_FAKE[s.site - 1].store(k as u32, SeqCst);
+                unsafe { inj.when_called_unchecked(injectorpp::func_unchecked!(t)).will_execute(counted_pair(s.site - 1)) }
             }
             "unchecked" => unsafe {
                 inj.when_called_unchecked(injectorpp::func_unchecked!(t)).will_execute_raw_unchecked(injectorpp::func_unchecked!(fk))
